@@ -528,6 +528,14 @@ def _vmnarrow_rule(chk):
     n = 0
     for x in vm.fn.nodes:
         if x.k == "cast" and (x.t or "") in ("int32_t", "int") and "janet_wrap_integer" in x.macro_names() and x.kids:
+            # the macro's own conversion is the outermost one; a cast written inside its argument is the caller's business
+            q, nested = x.parent, False
+            while q is not None and q.k in ("cast", "paren", "un", "bin"):
+                if q.k == "cast" and (q.t or "") in ("int32_t", "int") and "janet_wrap_integer" in q.macro_names():
+                    nested = True
+                q = q.parent
+            if nested:
+                continue
             inner = x.kids[0]
             while inner.k == "paren" and inner.kids:
                 inner = inner.kids[0]
@@ -541,6 +549,62 @@ def _vmnarrow_rule(chk):
                               "%s boxes `%s` (type %s) with janet_wrap_integer, which first converts to int32_t: values outside the 32-bit "
                               "range are truncated instead of being returned as the number they are" % (h, inner.text()[:40], inner.t))
     chk.floor(rule, 5, n)
+
+
+def _vmrange_rule(chk):
+    """The 32-bit bitwise operators take doubles and work on their integer value.  Converting a double that is not an
+    integer in range to int32_t / uint32_t is undefined behaviour in C and in practice yields some other number:
+    (bnot 2147483648) answered 2147483647.  Every such conversion in the interpreter sits behind a range check of the
+    same value in the same handler."""
+    from jv.vm import VMHandlers
+    rule = "C14-VMRANGE"
+    chk.rule(rule, "in the interpreter, a double is converted to a 32-bit integer only after janet_checkintrange / janet_checkuintrange accepted that same value in the handler")
+    full = Program.load("default", units=["vm.c"])
+    vm = VMHandlers(full)
+    CHECKS = ("janet_checkintrange", "janet_checkuintrange", "janet_checkint", "janet_checkint16", "janet_checkuint16")
+    checked = {}
+
+    def in_check(y):
+        return any(m.rstrip("@") in CHECKS for m in y.macro_names())
+    exact = set()       # cast nodes that are the exactness test of a range check: v == (T) v
+    for c in vm.fn.nodes:
+        if (c.k == "call" and c.callee in CHECKS) or (c.k == "ref" and in_check(c)):
+            h = vm.handler_of(c)
+            for y in c.walk():
+                if y.k == "ref":
+                    checked.setdefault(h, set()).add(y.name)
+        if c.k == "bin" and c.op == "==" and len(c.kids) == 2:
+            for a, b in ((c.kids[0], c.kids[1]), (c.kids[1], c.kids[0])):
+                a0, b0 = a, b
+                while b0.k == "paren" and b0.kids:
+                    b0 = b0.kids[0]
+                while a0.k == "paren" and a0.kids:
+                    a0 = a0.kids[0]
+                if is_ref(a0) and b0.k == "cast" and b0.kids and is_ref(strip_casts(b0.kids[0])) and strip_casts(b0.kids[0]).name == a0.name:
+                    # the bounds must be tested in the same conjunction
+                    q = c.parent
+                    while q is not None and q.k in ("paren",):
+                        q = q.parent
+                    if q is not None and q.k == "bin" and q.op == "&&":
+                        checked.setdefault(vm.handler_of(c), set()).add(a0.name)
+                        exact.add(b0.id)
+    n = 0
+    for x in vm.fn.nodes:
+        if x.k == "cast" and (x.t or "") in ("int32_t", "uint32_t", "int", "unsigned int") and x.kids and (x.kids[0].t or "") == "double":
+            if in_check(x) or x.id in exact:
+                continue            # the check's own exactness test `(x) == (int32_t)(x)`
+            h = vm.handler_of(x)
+            names = set(y.name for y in x.kids[0].walk() if y.k == "ref")
+            n += 1
+            chk.instance(rule)
+            if names & checked.get(h, set()):
+                chk.ok(rule, "%s: (%s) %s follows a range check" % ((h or "?").replace("label_", ""), x.t, x.kids[0].text()[:20]))
+            else:
+                chk.violation(rule, "vm.c", "run_vm", "%s:%s" % ((h or "?").replace("label_", ""), x.kids[0].text()[:20].replace(" ", "")), x.loc,
+                              "%s converts the double `%s` to %s without a range check of that value in the handler: a number outside the "
+                              "32-bit range, or with a fraction, is silently turned into another integer instead of being refused as its "
+                              "sibling operators do" % ((h or "?").replace("label_", ""), x.kids[0].text()[:40], x.t))
+    chk.floor(rule, 8, n)
 
 
 def _unsignedwrap_rule(chk):
@@ -587,6 +651,9 @@ def run(chk):
     _unsignedwrap_rule(chk)
     _modexact_rule(chk)
     _vmnarrow_rule(chk)
+    _vmrange_rule(chk)
+    from rules import c14_boot
+    c14_boot.cmpdecline(chk)
     _scanrange_rule(chk)
     _variadicloop_rule(chk, tu)
     _u64range_rule(chk, tu)
